@@ -36,9 +36,43 @@ def make():
         open(path, 'w').write(out)
     return path, ''
 
+SEND_SIG = 'func sendmsg(fd int, bs [][]byte, ivs []syscall.Iovec, zerocopy bool) (n int, err error) {'
+SEND_WRAPPER = '''
+// sendmsg (verif overlay): the harness' schedule point, then the unchanged function.
+func sendmsg(fd int, bs [][]byte, ivs []syscall.Iovec, zerocopy bool) (n int, err error) {
+	if h := verifBeforeSendmsg; h != nil {
+		h(fd)
+	}
+	return sendmsgRaw(fd, bs, ivs, zerocopy)
+}
+'''
+
+def make_sendmsg():
+    """work/sys_sendmsg_linux_hooked.go: the repo's CURRENT sys_sendmsg_linux.go with `sendmsg` renamed to `sendmsgRaw` and a wrapper
+    `sendmsg` appended that calls the harness variable `verifBeforeSendmsg` (go/inpkg/opcacheh.go) IN FRONT of the system call: a schedule
+    point between a writer's lock(flushing) and its sendmsg on c.fd (C10 `wclose`).  (path, '') or (None, why); without it the harness
+    skips the `wclose` steps (and the check relies on the tie Netpoll.Tie.Life.sync_connection_initFinalizer alone)."""
+    src_path = os.path.join(common.REPO, 'sys_sendmsg_linux.go')
+    try:
+        src = open(src_path).read()
+    except OSError as e:
+        return None, 'cannot read %s: %s' % (src_path, e)
+    if src.count(SEND_SIG) != 1 or 'sendmsgRaw' in src:
+        return None, 'sys_sendmsg_linux.go: sendmsg does not have the expected signature (%s)' % SEND_SIG
+    out = src.replace(SEND_SIG, SEND_SIG.replace('func sendmsg(', 'func sendmsgRaw('), 1) + SEND_WRAPPER
+    os.makedirs(common.WORK, exist_ok=True)
+    path = os.path.join(common.WORK, 'sys_sendmsg_linux_hooked.go')
+    if not os.path.exists(path) or open(path).read() != out:
+        open(path, 'w').write(out)
+    return path, ''
+
 def build(name):
-    """build harness `name` with the hooked EpollWait; (binary or None, output)"""
+    """build harness `name` with the hooked EpollWait (and the hooked sendmsg, if its signature is the expected one); (binary or None, output)"""
     path, why = make()
     if path is None:
         return None, why
-    return common.build_harness(name, replacements={'sys_epoll_linux.go': path})
+    repl = {'sys_epoll_linux.go': path}
+    spath, _ = make_sendmsg()
+    if spath is not None:
+        repl['sys_sendmsg_linux.go'] = spath
+    return common.build_harness(name, replacements=repl)
